@@ -243,6 +243,7 @@ function step(l) {
       if (r !== true) throw new Error("delete returned " + r);
       res = "ok"; break;
     case "len": A().length = l.n; res = "ok"; break;
+    case "lendef": Object.defineProperty(A(), "length", l.ro === "T" ? {value: l.n, writable: false} : {value: l.n}); res = "ok"; break;
     case "push": res = A().push(val(l.v)); break;
     case "pop": res = show(A().pop()); break;
     case "shift": res = show(A().shift()); break;
